@@ -19,7 +19,9 @@ RULE = ("the real server over stdio: edit histories (13 mutation kinds incl. rem
         "configuration filtered by the listed valid codes (C19_filter, checked on the wire), (3) the latest text: "
         "every diagnostic's span must spell the name its message is about. A final sweep re-sends every document "
         "unchanged after its conftest files changed. Two scan-first cases check that a valid exclude pattern still "
-        "excludes when an invalid one stands beside it. Non-trivial = history in which some published set is "
+        "excludes when an invalid one stands beside it. Pairs of didChange notifications for one document sent in a single "
+        "write (a text that is slow to analyse followed by a quick one, and the reverse): the last publish must hold "
+        "the findings of the later text. Non-trivial = history in which some published set is "
         "non-empty and later changes; distinct by (mutation sequence, configuration)")
 
 CODES = ["undeclared-fixture", "circular-dependency", "scope-mismatch"]
@@ -165,6 +167,69 @@ def build_history(rng, name, steps, pyproject, sweep=True):
     return sc, log, kinds
 
 
+def burst_part(r, tier):
+    """`whenever a document is opened or changed the client ends up holding the findings for the document's latest
+    content`, also when two changes of one document arrive back to back (one write) and the earlier text takes
+    longer to analyse than the later one: the client's last publish must describe the LATER text"""
+    import os, shutil, tempfile, time
+    from .. import lsp
+    v = r.verdict
+    base = tempfile.mkdtemp(prefix="c19burst-", dir=core.BUILD)
+    root = os.path.join(base, "ws")
+    os.makedirs(os.path.join(root, "gen"))
+    conf = "import pytest\n\n@pytest.fixture\ndef made():\n    return 1\n"
+    small = "def test_z():\n    pass\n"
+    one = "def test_o():\n    made()\n"
+    open(os.path.join(root, "gen", "conftest.py"), "w").write(conf)
+    open(os.path.join(root, "gen", "test_g.py"), "w").write(small)
+    nburst = 0
+    c = None
+    try:
+        c = lsp.Client(core.SERVER_BIN, root, timeout=30.0)
+        c.diag_timeout = 30.0
+        c.open("gen/conftest.py", conf)
+        first = c.open("gen/test_g.py", small)
+        u = c.uri("gen/test_g.py")
+        version = 2
+        rounds = 4 if tier == "quick" else 16
+        for k in range(rounds):
+            n = r.rng.choice([1500, 3000])
+            big = "".join("def test_%d():\n    made()\n" % j for j in range(n))
+            # (earlier text, later text, findings the later text has)
+            seq = [(big, small, 0), (big, one, 1), (small, big, n)][k % 3]
+            before = c.diag_count.get(u, 0)
+            c.notify_burst([
+                ("textDocument/didChange", {"textDocument": {"uri": u, "version": version}, "contentChanges": [{"text": seq[0]}]}),
+                ("textDocument/didChange", {"textDocument": {"uri": u, "version": version + 1}, "contentChanges": [{"text": seq[1]}]})])
+            version += 2
+            c.wait_diag(u, before + 2)
+            time.sleep(0.2)
+            last = list(c.diagnostics.get(u, []))
+            nburst += 1
+            got = len([d for d in last if (d.get("code") or "") == "undeclared-fixture"])
+            if got != seq[2]:
+                msg = (f"burst {k}: two didChange notifications for gen/test_g.py sent in one write (the earlier text has "
+                       f"{seq[0].count('made()')} undeclared uses, the later one {seq[2]}); the client's last publishDiagnostics "
+                       f"holds {got} undeclared-fixture findings - it describes the earlier text, not the latest content")
+                replay = ("# " + msg + "\n# workspace: gen/conftest.py defines fixture `made`; gen/test_g.py is opened with `def test_z(): pass`\n"
+                          "# then ONE write carries didChange(version %d, earlier text) + didChange(version %d, later text)\n"
+                          "# earlier text: %d x `def test_i():\\n    made()`; later text: %r\n"
+                          % (version - 2, version - 1, seq[0].count("made()"), seq[1][:60]))
+                v.violation("burst%d" % k, msg, replay)
+                break
+    except (lsp.ServerDied, lsp.Timeout) as e:
+        msg = f"burst part: {e}"
+        v.violation("burst-died", msg, "# " + msg + "\n")
+    finally:
+        if c is not None:
+            try:
+                c.shutdown()
+            except Exception:
+                pass
+        shutil.rmtree(base, ignore_errors=True)
+    r.stats["back_to_back_change_pairs"] = nburst
+
+
 def run(tier, seed):
     r = Run(PROP, MODULE, THEOREMS, tier, seed, need_server=True)
     if not r.prepare():
@@ -301,6 +366,7 @@ def run(tier, seed):
     r.stats["publishes_compared_with_model"] = npub
     r.stats["diagnostic_spans_checked_against_latest_text"] = nspan
     r.stats["publishes_checked_against_filter_law"] = nfilter
+    burst_part(r, tier)
     return r.finish(RULE)
 
 
